@@ -493,7 +493,7 @@ func runC08(a *Args) error {
 	w.Assumptions = []string{
 		"error classes of the selection functions are recognised from stable tokens of their messages",
 		"the statement the verifier used is recognised from the first trust store of type ca it asks the injected trust store for (x509 signing scheme, genuine JWS envelope); statements are given distinct first ca stores",
-		"documents are built as Go structs (not through JSON); validity of documents is C09's subject: the real Validate() verdict is an input, and accepted documents are checked to have unique scopes, unique names and at most one global statement",
+		"documents are built as Go structs (not through JSON); validity of documents is C09's subject: the real Validate() verdict is an input, and accepted documents are checked to have unique scopes, unique names, at most one global statement, and wildcard statements whose only scope is the wildcard (C08_Model.valid_doc)",
 		"appending through a returned slice is modelled as allocating a new array (spare capacity is invisible through the document's slice headers)",
 	}
 	thorough := a.Tier == "thorough"
